@@ -325,6 +325,8 @@ func checkC20(c *Ctx) string {
 			}
 		}
 	}
+	checkCompactColumnsAfterCopy(c, "C20.4 K4 compact rewrites the column list only after the records were copied")
+	checkWorkersJoinedBeforeVerdict(c, "C20.5 K4c load reports success only after its workers were joined and reported no error")
 	return "One clause of dump/load/compact: the result of btree.Builder.Add is used and an iteration of every loop that feeds a builder can only end on the edge where Add accepted the key; " +
 		"in every function of db19/tools that renames a file over its target the new database's state is written before it is closed and both precede the rename (compact, load), " +
 		"dump files are flushed (result used) and closed first, the rename's result is used; compactTable asserts copied rows == Info.Nrows before adding the table and builds the new Info from that count; " +
